@@ -1,7 +1,7 @@
 #!/venv/bin/python
 """Copy confirmed seeded changes (sub-agent patches re-confirmed by tools/confirm_seed.sh) into /verif/seeded/<id>/."""
 import json, os, re, shutil, subprocess, sys
-SRC = [(b, t) for b, t in [("/tmp/seed", "m"), ("/tmp/seed2", "n"), ("/tmp/seed3", "p"), ("/tmp/seed4", "q"), ("/tmp/seed5", "r"), ("/tmp/seed6", "s"), ("/tmp/seed7", "t")] if t in (sys.argv[1:] or ["m", "n", "p", "q", "r", "s", "t"])]
+SRC = [(b, t) for b, t in [("/tmp/seed", "m"), ("/tmp/seed2", "n"), ("/tmp/seed3", "p"), ("/tmp/seed4", "q"), ("/tmp/seed5", "r"), ("/tmp/seed6", "s"), ("/tmp/seed7", "t"), ("/tmp/seed8", "u")] if t in (sys.argv[1:] or ["m", "n", "p", "q", "r", "s", "t", "u"])]
 DST = "/verif/seeded"
 os.makedirs(DST, exist_ok=True)
 kept = skipped = 0
@@ -36,7 +36,7 @@ for base, tag in SRC:
             meta_path = os.path.join(out, "meta.json")
             meta = json.load(open(meta_path)) if os.path.exists(meta_path) else {}
             meta.update({
-                "id": sid, "property": pid, "origin": "independent sub-agent, round " + {"m": "1", "n": "2", "p": "3", "q": "4", "r": "5", "s": "6", "t": "7"}[tag] + " (given only the property text and a scratch worktree)",
+                "id": sid, "property": pid, "origin": "independent sub-agent, round " + {"m": "1", "n": "2", "p": "3", "q": "4", "r": "5", "s": "6", "t": "7", "u": "8"}[tag] + " (given only the property text and a scratch worktree)",
                 "summary": " ".join(notes.split())[:600],
                 "confirmed_by_me": {
                     "how": "tools/confirm_seed.sh in a scratch worktree: git apply patch; run demo against the patched tree and against /repo; run the full suite on the patched tree",
